@@ -409,6 +409,9 @@ def _text_cases():
            ('two-lines-swapped', ['alpha', 'gamma ray', 'beta 12 ms', 'delta'], list(ref)),
            ('three-lines-rotated', ['beta 12 ms', 'gamma ray', 'alpha', 'delta'], list(ref)),
            ('swapped-and-one-changed', ['alpha', 'gamma ray', 'beta 12 ms', 'DELTA'], list(ref)),
+           # the same texts on both sides, a different number of times each: not a permutation
+           ('same-texts-other-multiplicities', ['ok', 'FAILED', 'ok', 'tail'], ['FAILED', 'ok', 'FAILED', 'tail']),
+           ('repeated-lines-permuted', ['ok', 'ok', 'FAILED', 'tail'], ['FAILED', 'ok', 'ok', 'tail']),
            ('leading-blanks-added', ['  alpha', 'beta 12 ms', 'gamma ray', 'delta'], list(ref)),
            ('trailing-blanks-added', ['alpha', 'beta 12 ms  ', 'gamma ray', 'delta\t'], list(ref)),
            ('blanks-inside-changed', ['alpha', 'beta  12 ms', 'gamma ray', 'delta'], list(ref)),
